@@ -200,7 +200,7 @@ class PremadeBuilder(object):
     model["parameterization"] = param
     model["num_terms"] = s.integer(1, 3)
     model["interpolation"] = s.choice(["hypercube", "simplex"])
-    model["random_seed"] = s.integer(0, 1000)
+    model["random_seed"] = s.choice([0, s.integer(1, 1000), s.integer(1, 1000)])
     structure = None
     if kind == "ensemble":
       structure = s.weighted([("explicit", 4), ("random", 3), ("rtl", 3)])
@@ -773,9 +773,9 @@ def _lattice_feature(name, size, clip, simplex=False):
   return _num_feature(name, 0.0, size - 1.0, strict=True)
 
 
-def _reg_arg(s, names, dims=None):
+def _reg_arg(s, names, dims=None, p=0.5):
   """A kernel_regularizer argument in one of the accepted spellings."""
-  if not s.chance(0.5):
+  if not s.chance(p):
     return None
   name = s.choice(names)
   l1 = _r(s.log10_uniform(-4, -1), 5)
@@ -819,25 +819,33 @@ class LayerBuilder(object):
         # (is_cyclic needs at least three keypoints.)
         a["input_keypoints"] = gen_keypoints(s, 3)
       a["units"] = s.weighted([(1, 3), (2, 2), (3, 1)])
+      # Theme first, so that rarely compatible options (cyclic needs neither
+      # monotonicity nor convexity) are exercised often enough.
+      theme = s.weighted([("any", 4), ("cyclic", 2)])
       mono = s.choice([0, 1, -1, "none", "increasing", "decreasing"])
+      a["convexity"] = s.choice([0, 0, 1, -1, "convex", "concave", "none"])
+      if theme == "cyclic":
+        mono = s.choice([0, "none"])
+        a["convexity"] = s.choice([0, "none"])
       a["monotonicity"] = mono
       is_mono = mono not in (0, "none")
-      a["convexity"] = s.choice([0, 0, 1, -1, "convex", "concave", "none"])
       a["is_cyclic"] = bool(not is_mono and a["convexity"] in (0, "none") and
-                            s.chance(0.3))
+                            (theme == "cyclic" or s.chance(0.3)))
       omin, omax = gen_bounds(s)
       a["output_min"], a["output_max"] = omin, omax
       a["clamp_min"] = bool(is_mono and omin is not None and s.chance(0.3))
       a["clamp_max"] = bool(is_mono and omax is not None and s.chance(0.3))
       a["kernel_initializer"] = ("equal_heights" if a["is_cyclic"] else
                                  s.choice(["equal_heights", "equal_slopes"]))
-      a["kernel_regularizer"] = _reg_arg(s, ["laplacian", "hessian", "wrinkle"])
+      a["kernel_regularizer"] = _reg_arg(s, ["laplacian", "hessian", "wrinkle"],
+                                         p=0.8 if theme == "cyclic" else 0.5)
       a["impute_missing"] = s.chance(0.5)
       a["missing_input_value"] = (_r(a["input_keypoints"][0] - 1.0, 2)
                                   if a["impute_missing"] else None)
       a["missing_output_value"] = None
       if a["impute_missing"] and s.chance(0.5):
-        lo = omin if omin is not None else -1.0
+        lo = omin if omin is not None else (
+            omax - 2.0 if omax is not None else -1.0)
         hi = omax if omax is not None else lo + 2.0
         a["missing_output_value"] = _r(s.uniform(lo, hi), 3)
       a["num_projection_iterations"] = s.choice([8, 4, 12])
@@ -969,8 +977,8 @@ class LayerBuilder(object):
       omin, omax = gen_bounds(s)
       a["output_min"], a["output_max"] = omin, omax
       a["clip_inputs"] = s.chance(0.6)
-      a["seeded_init"] = s.chance(0.4)
-      a["init_seed"] = s.integer(0, 999)
+      a["seeded_init"] = s.chance(0.5)
+      a["init_seed"] = s.choice([0, 0, s.integer(1, 999)])
     elif kind == "rtl":
       a["n_unconstrained"] = s.integer(0, 4)
       a["n_increasing"] = s.integer(0, 4)
